@@ -129,6 +129,19 @@ Definition bin_generic (rec : bop -> expr -> expr -> expr) (o : bop) (x y : expr
       | Sub => rec Add x d
       | Mul => mk_un Neg (rec Mul x d)
       end
+  | Bin Add d0 d1 =>
+      (* x - (x + b) = -b, x - (b + x) = -b *)
+      match o with
+      | Sub => if is_equal1 x d0 then mk_un Neg d1
+               else if is_equal1 x d1 then mk_un Neg d0 else Bin o x y
+      | _ => Bin o x y
+      end
+  | Bin Sub d0 d1 =>
+      (* x + (b - x) = b *)
+      match o with
+      | Add => if is_equal1 x d1 then d0 else Bin o x y
+      | _ => Bin o x y
+      end
   | _ => Bin o x y
   end.
 
